@@ -1,6 +1,6 @@
 (* C14 — layout trivia and source positions.  Property theorems only. *)
 From Coq Require Import List NArith Bool String Ascii.
-From RV Require Import Loc LocProofs Lexer LexerTrivia LexerTrivia2 GenLexer.
+From RV Require Import Loc LocProofs Lexer LexerTrivia LexerTrivia2 LexerTrivia3 GenLexer.
 Import ListNotations.
 Local Open Scope N_scope.
 
@@ -43,7 +43,9 @@ Proof. exact later_files_do_not_matter. Qed.
    operator `/` is not a comment there: the two slashes open a line comment).
    Then: trivia in front of the first token, and trivia behind any such token that stands after a prefix of such
    tokens separated by single blanks (C14_trivia_behind_a_spaced_prefix_partial).
-   Missing: numeric literals as the token in front (their recognisers look ahead up to four characters), tokens in
+   Then: behind any prefix of such tokens and trivia in any arrangement, the tokens touching or not
+   (C14_trivia_behind_a_token_prefix_partial).
+   Missing: numeric literals and `<` / `>` as the token in front or anywhere before it, tokens in
    front of the insertion point when the file does not start with the
    token (that they do not look ahead that far is not proved), and everything after the lexer (directive lines,
    macro invocations, the parser) - those layers are exercised by the metamorphic runs of the check. ---- *)
@@ -162,6 +164,40 @@ Qed.
 Local Close Scope string_scope.
 
 
+Local Open Scope string_scope.
+(* any token boundary behind a prefix made of such tokens and of trivia pieces in any arrangement - the tokens may touch,
+   as long as each is followed by a character that cannot extend it (`Pre`, checked against the first character `c` of the
+   token in front of the insertion point); numeric literals and `<` / `>` may not occur in the prefix *)
+Theorem C14_trivia_behind_a_token_prefix_partial :
+  forall keywords reserved_words symbols int_suffixes float_suffixes float_is_zero utf8_ok p c a' (b : string) t x spans,
+    Pre keywords reserved_words symbols int_suffixes float_suffixes float_is_zero utf8_ok c p ->
+    tok_at keywords reserved_words symbols int_suffixes float_suffixes float_is_zero utf8_ok false (String c a' ++ b) = LOk t (slen (String c a')) ->
+    solid t = true -> Ascii.eqb c "/" = false -> Trivia x ->
+    lex_file keywords reserved_words symbols int_suffixes float_suffixes float_is_zero utf8_ok (p ++ String c a' ++ b) = SOk spans ->
+    exists spans', lex_file keywords reserved_words symbols int_suffixes float_suffixes float_is_zero utf8_ok (p ++ String c a' ++ x ++ b) = SOk spans' /\
+                   strip (toks spans') = strip (toks spans).
+Proof. exact trivia_after_token_behind_prefix. Qed.
+
+(* non-vacuity with the real tables: `a/* c */=b+c;` - the prefix `a/* c */=b+` (tokens that touch, a comment between
+   two of them), the token `c`, a line comment inserted in front of the `;` *)
+Example C14_token_prefix_example :
+  let pre := Pre keywords reserved_words symbols int_suffixes float_suffixes (fun _ => false) (fun _ => true) "c"%char in
+  let lex := lex_file keywords reserved_words symbols int_suffixes float_suffixes (fun _ => false) (fun _ => true) in
+  let nonws s := option_map strip (match lex s with SOk l => Some (toks l) | _ => None end) in
+  pre ("a" ++ ("/*" ++ " c " ++ "*/") ++ "=" ++ "b" ++ "+" ++ "") /\
+  nonws "a/* c */=b+c;" = nonws ("a/* c */=b+c" ++ ("//" ++ " d" ++ String "010" "") ++ ";").
+Proof.
+  cbv zeta. split.
+  - apply (PreTok _ _ _ _ _ _ _ _ "a"%char "" (TId "a")); [vm_compute; reflexivity|reflexivity|split; intros; [reflexivity|discriminate]|].
+    apply PreTrivia; [apply PBlock; reflexivity|].
+    apply (PreTok _ _ _ _ _ _ _ _ "="%char "" (TSym "Equals")); [vm_compute; reflexivity|reflexivity|split; intros; [discriminate|repeat split; intros; try reflexivity; discriminate]|].
+    apply (PreTok _ _ _ _ _ _ _ _ "b"%char "" (TId "b")); [vm_compute; reflexivity|reflexivity|split; intros; [reflexivity|discriminate]|].
+    apply (PreTok _ _ _ _ _ _ _ _ "+"%char "" (TSym "Plus")); [vm_compute; reflexivity|reflexivity|split; intros; [discriminate|repeat split; intros; try reflexivity; discriminate]|].
+    apply PreNil.
+  - vm_compute. reflexivity.
+Qed.
+Local Close Scope string_scope.
+
 (* ---- non-vacuity ---- *)
 Example C14_example :
   let a := [105; 110; 116; 10] in           (* "int\n" *)
@@ -186,3 +222,4 @@ Print Assumptions C14_trivia_after_a_token_keeps_the_rest_partial.
 Print Assumptions C14_trivia_after_the_first_token_partial.
 Print Assumptions C14_trivia_at_the_start_partial.
 Print Assumptions C14_trivia_behind_a_spaced_prefix_partial.
+Print Assumptions C14_trivia_behind_a_token_prefix_partial.
